@@ -15,7 +15,7 @@ RULE = (
     "= 3, register a listener that itself registers another listener when called (event a/b) = 2, query(get_listeners(a), "
     "get_listeners(b), get_listeners()) = 3 (queries fill the dispatcher's sort cache, so they are part of the history), "
     "dispatch without an event object (a/b) = 2, register a listener that raises (its exception ends the dispatch and reaches the caller; the dispatcher must "
-    "work as before afterwards) = 1, register a bound method of an object nobody else refers to (plain / high priority and stopping) = 2, register a listener that registers another one at a higher priority than its own = 1, dispatch with an Event subclass that overrides stop_propagation / is_propagation_stopped with its own state = 1. Scale part: 1350 listeners on one event (1300 at one priority) and 60 dispatches in a row ending in a listener's exception. "
+    "work as before afterwards) = 1, register a bound method of an object nobody else refers to (plain / high priority and stopping) = 2, register a listener that registers another one at a higher priority than its own = 1, dispatch with an Event subclass that overrides stop_propagation / is_propagation_stopped with its own state = 1. Application part: listeners for the CONFIG, PRE_RESOLVE and PRE_HANDLE events registered through ApplicationConfig / DefaultApplicationConfig at several priorities, application built and run. Scale part: 1350 listeners on one event (1300 at one priority) and 60 dispatches in a row ending in a listener's exception. "
     "Every sequence up to length L is run from scratch on a new EventDispatcher: each dispatch's invocation log is compared "
     "with the model, and after the last step every query (has_listeners per event and overall, get_listeners per event and "
     "overall, get_listener_priority of every listener for every event) is compared. Random sequences of length 6-40 on top. "
@@ -200,6 +200,68 @@ def run_scale(sh, Dispatcher, Event):
         sh.violate("dispatch-order", record, "after 60 failed dispatches a normal dispatch called %r" % (calls,))
 
 
+def run_application_events(sh):
+    """The three events the application itself dispatches (CONFIG when it is built, PRE_RESOLVE and PRE_HANDLE on
+    every run), with listeners registered through the configuration at several priorities: the same rule."""
+    from clikit.api.config.application_config import ApplicationConfig
+    from clikit.api.event import CONFIG, PRE_HANDLE, PRE_RESOLVE
+    from clikit.args import ArgvArgs
+    from clikit.config.default_application_config import DefaultApplicationConfig
+    from clikit.console_application import ConsoleApplication
+    from clikit.handler.callback_handler import CallbackHandler
+    from clikit.io.input_stream import StringInputStream
+    from clikit.io.output_stream import BufferedOutputStream
+
+    for config_class in (ApplicationConfig, DefaultApplicationConfig):
+        for plan_ in ([(0, False), (5, False), (0, False), (-1, False)], [(5, False), (5, True), (0, False)], [(0, False)], []):
+            log = []
+            cfg = config_class("app", "1.0")
+            cfg.set_catch_exceptions(False)
+            cfg.set_terminate_after_run(False)
+            if config_class is ApplicationConfig:
+                from clikit.api.io import IO, Input, Output
+                from clikit.formatter import PlainFormatter
+                from clikit.resolver.default_resolver import DefaultResolver
+
+                cfg.set_command_resolver(DefaultResolver())
+
+                cfg.set_io_factory(lambda app, args, i, o, e: IO(Input(i), Output(o, PlainFormatter()), Output(e, PlainFormatter())))
+            cfg.create_command("run").set_handler(CallbackHandler(lambda args, io: log.append(("handler",)) or 0))
+            want = {}
+            for ev in (CONFIG, PRE_RESOLVE, PRE_HANDLE):
+                regs = []
+                for k, (pr, stops) in enumerate(plan_):
+                    def listener(event, name, d, ev=ev, k=k, stops=stops):
+                        log.append((ev, k))
+                        if stops:
+                            event.stop_propagation()
+
+                    cfg.add_event_listener(ev, listener, pr)
+                    regs.append((pr, k, stops))
+                exp = []
+                for pr, k, stops in sorted(regs, key=lambda x: (-x[0], x[1])):
+                    exp.append((ev, k))
+                    if stops:
+                        break
+                want[ev] = exp
+            record = {"kind": "application-events", "config": config_class.__name__, "listeners": [list(x) for x in plan_]}
+            sh.case(("app-events", config_class.__name__, tuple(plan_)), bool(plan_))
+            try:
+                app = ConsoleApplication(cfg)
+                built = list(log)
+                del log[:]
+                app.run(ArgvArgs(["prog", "run"]), StringInputStream(""), BufferedOutputStream(), BufferedOutputStream())
+            except Exception as e:
+                sh.violate("dispatch-raises", record, "building / running the application with these listeners raised %r" % (e,))
+                continue
+            sh.count("application_event_dispatches", 3)
+            got_run = [x for x in log if x[0] != "handler"]
+            if built != want[CONFIG]:
+                sh.violate("dispatch-order", record, "CONFIG listeners called %r, expected %r" % (built, want[CONFIG]))
+            if got_run != want[PRE_RESOLVE] + want[PRE_HANDLE]:
+                sh.violate("dispatch-order", record, "PRE_RESOLVE / PRE_HANDLE listeners called %r, expected %r" % (got_run, want[PRE_RESOLVE] + want[PRE_HANDLE]))
+
+
 def execute(sh, Dispatcher, Event, ops, record):
     r = Run(Dispatcher, Event)
     touched = set()  # events dispatched or queried so far
@@ -320,6 +382,7 @@ def run(sh, spec):
             execute(sh, EventDispatcher, Event, (), {"ops": []})
             sh.case((), False)
             run_scale(sh, EventDispatcher, Event)
+            run_application_events(sh)
             return
         firsts = range(spec["first"], min(spec["first"] + spec.get("step", 3), len(OPS)))
         for n in range(1, spec["maxlen"] + 1):
